@@ -3,35 +3,40 @@
 // input: a sequence of operations separated by single spaces, executed on one
 // storage.TrieState over an empty in-memory trie; fields of an operation are separated by ':'
 // (byte strings in hex, "-" = empty; numbers in hex):
-//   S | C | R                     StartTransaction / CommitTransaction / RollbackTransaction
-//   p:<k>:<v>  g:<k>  d:<k>       Put / Get / Delete
-//   cp:<p>  cl:<p>:<n>            ClearPrefix / ClearPrefixLimit
-//   n:<k>  e                      NextKey / TrieEntries
-//   cs:<c>:<k>:<v>  cg:<c>:<k>  cd:<c>:<k>    SetChildStorage / GetChildStorage / ClearChildStorage
-//   ccp:<c>:<p>  ccl:<c>:<p>:<n>  ClearPrefixInChild / ClearPrefixInChildWithLimit
-//   cn:<c>:<k>                    GetChildNextKey
-//   ck:<c>  ckl:<c>:<n|->        DeleteChild / DeleteChildLimit (- = nil limit)
-//   cks:<c>:<p>                   GetKeysWithPrefixFromChild
+//
+//	S | C | R                     StartTransaction / CommitTransaction / RollbackTransaction
+//	p:<k>:<v>  g:<k>  d:<k>       Put / Get / Delete
+//	cp:<p>  cl:<p>:<n>            ClearPrefix / ClearPrefixLimit
+//	n:<k>  e                      NextKey / TrieEntries
+//	cs:<c>:<k>:<v>  cg:<c>:<k>  cd:<c>:<k>    SetChildStorage / GetChildStorage / ClearChildStorage
+//	ccp:<c>:<p>  ccl:<c>:<p>:<n>  ClearPrefixInChild / ClearPrefixInChildWithLimit
+//	cn:<c>:<k>                    GetChildNextKey
+//	ck:<c>  ckl:<c>:<n|->        DeleteChild / DeleteChildLimit (- = nil limit)
+//	cks:<c>:<p>                   GetKeysWithPrefixFromChild
+//
 // observed: one token per operation, then the final token (only when every transaction was
 // closed and nothing panicked):
-//   ok | err | panic              (after panic nothing more is printed)
-//   v=<hex> | none                values / keys (a key under ":child_storage:" is printed as none)
-//   <deleted>,<0|1>               (deleted, allDeleted)
-//   E[k=v,k=v]                    entries sorted by key, without the ":child_storage:" keys
-//   K[k,k]                        keys, sorted
-//   F[main entries]/<child>=[entries]|<child>=absent/.../root=<0|1>
-//                                 contents of the backing trie; root=1 iff Trie().Hash() equals the
-//                                 root of a fresh trie filled with exactly these contents
+//
+//	ok | err | panic              (after panic nothing more is printed)
+//	v=<hex> | none                values / keys (a key under ":child_storage:" is printed as none)
+//	<deleted>,<0|1>               (deleted, allDeleted)
+//	E[k=v,k=v]                    entries sorted by key, without the ":child_storage:" keys
+//	K[k,k]                        keys, sorted
+//	F[main entries]/<child>=[entries]|<child>=absent/.../root=<0|1>
+//	                              contents of the backing trie; root=1 iff Trie().Hash() equals the
+//	                              root of a fresh trie filled with exactly these contents
 //
 // Alphabet (see c08Gen): main keys, child-trie names, child keys and prefixes are all drawn
 // from the same few byte strings (11, 1122, 112233, 112244, 22, 2255), so that main keys,
 // child names and prefixes collide, keys are prefixes of other keys and equal to cleared
-// prefixes; values are tagged by the trie they go into so that two child tries never have the
-// same contents (the in-memory trie indexes child tries by root hash).
+// prefixes. Child tries 11, 22 and 33 take their values from the same two values, and the
+// "twins" mode mirrors writes into two child tries: child tries with equal contents are common
+// (the in-memory trie keeps child tries by root hash: fix C08-6; tag twin-children).
 // The bytes differ in their high nibble only, so that the backing trie never has a branch at an
 // odd nibble position (pkg/trie findings get-exhausted-key / delete-exhausted-key, C02);
-// prefixes never end in a zero low nibble and are never empty (pkg/trie prefix defect, C02;
-// an empty prefix makes the in-transaction ClearPrefix loop forever, see fixes/C08-findings.txt).
+// prefixes never end in a zero low nibble (pkg/trie prefix defect, C02). The empty prefix / key
+// is generated in the mode "empty prefixes" (refused by ClearPrefix / ClearPrefixLimit on main
+// storage: fix C08-7; everything in a child trie for the child-trie operations).
 // With fixes/C02-{get,delete}-diverging-key and C02-keys-prefix-descent applied the in-memory
 // trie was checked to behave as an ordered map on every subset of this alphabet.
 package storage
@@ -50,34 +55,73 @@ import (
 
 var c08Keys = []string{"11", "1122", "112233", "112244", "22", "2255"}
 var c08Prefixes = []string{"11", "1122", "22", "33", "112233", "1133"}
-var c08Children = []string{"11", "22"}
+var c08Children = []string{"11", "22", "33"}
 
 func c08Pick(r *vu.RNG, l []string) string { return l[r.Intn(len(l))] }
 
-// values: main 01..03 or empty; child "11": a1..a3 or empty; child "22": b1..b3
+// child trie names: 11 and 22 mostly (they are main keys too), 33 now and then
+func c08Child(r *vu.RNG, m c08Mode) string {
+	if m.oneChild && r.Chance(3, 4) {
+		return "11"
+	}
+	if r.Chance(1, 8) {
+		return "33"
+	}
+	return c08Children[r.Intn(2)]
+}
+
+// values: main 01..03 or empty; every child trie: a1, a2 or (rarely) empty
 func c08Val(r *vu.RNG, where string) string {
-	switch where {
-	case "main":
+	if where == "main" {
 		if r.Chance(1, 6) {
 			return "-"
 		}
 		return []string{"01", "02", "03"}[r.Intn(3)]
-	case "11":
-		if r.Chance(1, 8) {
-			return "-"
-		}
-		return []string{"a1", "a2", "a3"}[r.Intn(3)]
-	default:
-		return []string{"b1", "b2", "b3"}[r.Intn(3)]
 	}
+	if r.Chance(1, 10) {
+		return "-"
+	}
+	return []string{"a1", "a2"}[r.Intn(2)]
 }
 
 func c08Lim(r *vu.RNG) string { return vu.X(uint64(r.Intn(4))) }
 
-func c08Op(r *vu.RNG, childWeight int) string {
-	if r.Intn(10) < childWeight {
-		c := c08Pick(r, c08Children)
-		switch r.Intn(14) {
+// generator modes
+type c08Mode struct {
+	childWeight int  // out of 10: share of child-storage operations
+	limitFree   bool // no limited clears (the histories C08_commit speaks about)
+	limitHeavy  bool // mostly deletions and limited clears over a populated backend
+	twins       bool // writes to child trie 11 / 22 are mirrored into the other one
+	emptyPrefix bool // the empty prefix / key for child-trie clears, listings and next-key
+	emptyMain   bool // the empty prefix for ClearPrefix / ClearPrefixLimit on main storage too
+	directMax   int  // up to this many operations before the first StartTransaction
+	prelude     int  // this many direct writes first (a populated backend)
+	unbalanced  bool // a CommitTransaction / RollbackTransaction without a transaction (panics)
+	oneChild    bool // three quarters of the child operations go to child trie 11
+}
+
+func c08Prefix(r *vu.RNG, m c08Mode, main bool) string {
+	if (main && m.emptyMain || !main && m.emptyPrefix) && r.Chance(1, 4) {
+		return "-"
+	}
+	return c08Pick(r, c08Prefixes)
+}
+
+func c08NextArg(r *vu.RNG, m c08Mode) string {
+	if m.emptyPrefix && r.Chance(1, 4) {
+		return "-"
+	}
+	return c08Pick(r, c08Keys)
+}
+
+func c08Op(r *vu.RNG, m c08Mode) string {
+	if r.Intn(10) < m.childWeight {
+		c := c08Child(r, m)
+		x := r.Intn(14)
+		if m.limitHeavy {
+			x = []int{0, 0, 4, 6, 6, 8, 8, 8, 9, 11, 11, 12, 7, 10}[x]
+		}
+		switch x {
 		case 0, 1, 2, 3:
 			return "cs:" + c + ":" + c08Pick(r, c08Keys) + ":" + c08Val(r, c)
 		case 4, 5:
@@ -85,23 +129,27 @@ func c08Op(r *vu.RNG, childWeight int) string {
 		case 6:
 			return "cd:" + c + ":" + c08Pick(r, c08Keys)
 		case 7:
-			return "ccp:" + c + ":" + c08Pick(r, c08Prefixes)
+			return "ccp:" + c + ":" + c08Prefix(r, m, false)
 		case 8:
-			return "ccl:" + c + ":" + c08Pick(r, c08Prefixes) + ":" + c08Lim(r)
+			return "ccl:" + c + ":" + c08Prefix(r, m, false) + ":" + c08Lim(r)
 		case 9:
-			return "cn:" + c + ":" + c08Pick(r, c08Keys)
+			return "cn:" + c + ":" + c08NextArg(r, m)
 		case 10:
 			return "ck:" + c
 		case 11:
-			if r.Chance(1, 2) {
+			if r.Chance(1, 2) && !m.limitHeavy {
 				return "ckl:" + c + ":-"
 			}
 			return "ckl:" + c + ":" + c08Lim(r)
 		default:
-			return "cks:" + c + ":" + c08Pick(r, c08Prefixes)
+			return "cks:" + c + ":" + c08Prefix(r, m, false)
 		}
 	}
-	switch r.Intn(12) {
+	x := r.Intn(12)
+	if m.limitHeavy {
+		x = []int{0, 0, 4, 6, 6, 6, 8, 8, 8, 8, 9, 11}[x]
+	}
+	switch x {
 	case 0, 1, 2, 3:
 		return "p:" + c08Pick(r, c08Keys) + ":" + c08Val(r, "main")
 	case 4, 5:
@@ -109,23 +157,53 @@ func c08Op(r *vu.RNG, childWeight int) string {
 	case 6:
 		return "d:" + c08Pick(r, c08Keys)
 	case 7:
-		return "cp:" + c08Pick(r, c08Prefixes)
+		return "cp:" + c08Prefix(r, m, true)
 	case 8:
-		return "cl:" + c08Pick(r, c08Prefixes) + ":" + c08Lim(r)
+		return "cl:" + c08Prefix(r, m, true) + ":" + c08Lim(r)
 	case 9, 10:
-		return "n:" + c08Pick(r, c08Keys)
+		return "n:" + c08NextArg(r, m)
 	default:
 		return "e"
 	}
 }
 
+// the same write on the other one of the child tries 11 / 22
+func c08Mirror(o string) string {
+	f := strings.Split(o, ":")
+	if len(f) < 3 || (f[0] != "cs" && f[0] != "cd") {
+		return ""
+	}
+	switch f[1] {
+	case "11":
+		f[1] = "22"
+	case "22":
+		f[1] = "11"
+	default:
+		return ""
+	}
+	return strings.Join(f, ":")
+}
+
 // one well-nested history: a few direct operations (they build the backend), then
 // transactions up to depth 4; every transaction is closed at the end
-func c08Seq(r *vu.RNG, nops int, childWeight int, limitFree bool) string {
+func c08Seq(r *vu.RNG, nops int, m c08Mode) string {
 	var ops []string
 	depth := 0
-	direct := r.Intn(6)
+	for i := 0; i < m.prelude; i++ {
+		if r.Intn(10) < m.childWeight {
+			c := c08Child(r, m)
+			ops = append(ops, "cs:"+c+":"+c08Pick(r, c08Keys)+":"+c08Val(r, c))
+		} else {
+			ops = append(ops, "p:"+c08Pick(r, c08Keys)+":"+c08Val(r, "main"))
+		}
+	}
+	direct := r.Intn(m.directMax + 1)
 	for i := 0; i < nops; i++ {
+		if m.unbalanced && depth == 0 && r.Chance(1, 6) {
+			// panics in the code and in the model: nothing runs after it
+			ops = append(ops, []string{"C", "R"}[r.Intn(2)])
+			break
+		}
 		if i == direct && depth == 0 {
 			ops = append(ops, "S")
 			depth++
@@ -143,11 +221,16 @@ func c08Seq(r *vu.RNG, nops int, childWeight int, limitFree bool) string {
 			ops = append(ops, "R")
 			depth--
 		default:
-			o := c08Op(r, childWeight)
-			if limitFree && (strings.HasPrefix(o, "cl:") || strings.HasPrefix(o, "ccl:") || strings.HasPrefix(o, "ckl:")) {
+			o := c08Op(r, m)
+			if m.limitFree && (strings.HasPrefix(o, "cl:") || strings.HasPrefix(o, "ccl:") || strings.HasPrefix(o, "ckl:")) {
 				o = "e"
 			}
 			ops = append(ops, o)
+			if m.twins && r.Chance(3, 4) {
+				if o2 := c08Mirror(o); o2 != "" {
+					ops = append(ops, o2)
+				}
+			}
 		}
 	}
 	for depth > 0 {
@@ -161,23 +244,79 @@ func c08Seq(r *vu.RNG, nops int, childWeight int, limitFree bool) string {
 	return strings.Join(ops, " ")
 }
 
+// thorough tier: every history of up to four operations over a reduced alphabet (two keys, one
+// of them a prefix of the other, both in main storage and in child trie 11), and every history
+// "S a b c d C" of four such operations inside a committed transaction
+var c08SmallOps = []string{"S", "C", "R",
+	"p:11:01", "p:1122:02", "g:11", "g:1122", "d:11", "d:1122", "cp:11", "cl:11:1", "n:11", "e",
+	"cs:11:11:a1", "cs:11:1122:a2", "cg:11:11", "cg:11:1122", "cd:11:11", "ccp:11:11", "ccl:11:11:1",
+	"cn:11:11", "ck:11", "ckl:11:1", "ckl:11:-", "cks:11:11"}
+
+func c08Exhaustive(emit func(string)) {
+	var rec func(prefix []string, depth int, wrap bool)
+	rec = func(prefix []string, depth int, wrap bool) {
+		if len(prefix) > 0 && !wrap {
+			emit(strings.Join(prefix, " "))
+		}
+		if depth == 0 {
+			if wrap {
+				emit("S " + strings.Join(prefix, " ") + " C")
+			}
+			return
+		}
+		for _, o := range c08SmallOps {
+			rec(append(prefix[:len(prefix):len(prefix)], o), depth-1, wrap)
+		}
+	}
+	rec(nil, 4, false)
+	rec(nil, 4, true)
+}
+
 func c08Gen(r *vu.RNG, n int, emit func(string)) {
+	// only in the main run of the thorough tier (n_thorough), not in bin/check's search runs
+	if vu.Thorough() && n >= 50000 {
+		c08Exhaustive(emit)
+	}
 	for i := 0; i < n; i++ {
 		nops := 6 + r.Intn(25)
-		switch r.Intn(8) {
+		switch r.Intn(12) {
 		case 0: // main storage only
-			emit(c08Seq(r, nops, 0, false))
+			emit(c08Seq(r, nops, c08Mode{childWeight: 0, directMax: 5}))
 		case 1: // child storage mostly
-			emit(c08Seq(r, nops, 8, false))
+			emit(c08Seq(r, nops, c08Mode{childWeight: 8, directMax: 5}))
 		case 2, 3: // no limited operations
-			emit(c08Seq(r, nops, 4, true))
+			emit(c08Seq(r, nops, c08Mode{childWeight: 4, limitFree: true, directMax: 5}))
 		case 4: // short
-			emit(c08Seq(r, 3+r.Intn(5), 4, false))
+			emit(c08Seq(r, 3+r.Intn(5), c08Mode{childWeight: 4, directMax: 5}))
+		case 5: // twin child tries
+			emit(c08Seq(r, nops, c08Mode{childWeight: 8, twins: true, directMax: 8}))
+		case 6: // limited clears over a populated backend, main storage
+			emit(c08Seq(r, nops, c08Mode{childWeight: 0, limitHeavy: true, directMax: 8}))
+		case 7: // limited clears over a populated backend, child storage
+			emit(c08Seq(r, nops, c08Mode{childWeight: 9, limitHeavy: true, directMax: 8}))
+		case 9: // reads and clears inside transactions over a populated backend
+			emit(c08Seq(r, nops, c08Mode{childWeight: 5 + r.Intn(5), prelude: 4 + r.Intn(6), directMax: 0,
+				oneChild: r.Chance(2, 3)}))
+		case 11: // limited clears outside and inside transactions over a populated backend
+			emit(c08Seq(r, nops, c08Mode{childWeight: []int{0, 9}[r.Intn(2)], limitHeavy: true,
+				prelude: 4 + r.Intn(5), directMax: 6}))
+		case 10: // commit / rollback without a transaction
+			if r.Chance(1, 3) {
+				emit(c08Seq(r, nops, c08Mode{childWeight: 4, unbalanced: true, directMax: 5}))
+			} else {
+				emit(c08Seq(r, nops, c08Mode{childWeight: 4, directMax: 5}))
+			}
+		case 8: // empty prefixes and keys
+			emit(c08Seq(r, nops, c08Mode{childWeight: 5, emptyPrefix: true, emptyMain: c08EmptyMain, directMax: 5}))
 		default:
-			emit(c08Seq(r, nops, 4, false))
+			emit(c08Seq(r, nops, c08Mode{childWeight: 4, directMax: 5}))
 		}
 	}
 }
+
+// the empty prefix on main storage: it is part of ":child_storage:", the prefix of the child trie
+// roots kept in the main trie; Substrate refuses to clear it (fix C08-7)
+const c08EmptyMain = true
 
 var c08ChildPrefix = []byte(":child_storage:")
 
